@@ -6,10 +6,12 @@ package openapi3filter
 import (
 	"bytes"
 	"context"
+	"encoding/json"
 	"errors"
 	"io"
 	"net/http"
 	"net/url"
+	"strings"
 
 	"github.com/getkin/kin-openapi/openapi3"
 	"github.com/getkin/kin-openapi/routers"
@@ -172,4 +174,62 @@ func verifSameJSON(a, b any) bool {
 		return true
 	}
 	return verifSame(a, b)
+}
+
+//verif:harness id=C13 tier=quick,thorough witness=end bounds="body defaults through the real decoders and the re-encoding step: declared content type in {application/json, application/problem+json, application/ld+json, application/x-www-form-urlencoded} x Content-Type header with or without a charset parameter x object schema {a: integer, d: integer default D (symbolic, as json number 0..9)} x body with or without d (concrete JSON / form text) x SkipSettingDefaults: a valid request stays valid; the forwarded body decodes to the received value plus exactly the default; with defaults skipped the body is byte-for-byte the one received; validating the forwarded request again succeeds"
+func verifH_C13_body_defaults() {
+	dflt := float64(verifChoose("D", 10))
+	obj := &openapi3.Schema{Type: &openapi3.Types{"object"}, Properties: openapi3.Schemas{
+		"a": {Value: &openapi3.Schema{Type: &openapi3.Types{"integer"}}},
+		"d": {Value: &openapi3.Schema{Type: &openapi3.Types{"integer"}, Default: dflt}},
+	}}
+	cts := []string{"application/json", "application/problem+json", "application/ld+json", "application/x-www-form-urlencoded"}
+	cti := verifChoose("ct", len(cts))
+	ct := cts[cti]
+	hasD := verifChoose("hasD", 2) == 1
+	body := ""
+	if cti == 3 {
+		body = "a=1"
+		if hasD {
+			body += "&d=2"
+		}
+	} else {
+		body = `{"a":1}`
+		if hasD {
+			body = `{"a":1,"d":2}`
+		}
+	}
+	header := ct
+	if verifChoose("charset", 2) == 1 {
+		header += "; charset=utf-8"
+	}
+	rb := &openapi3.RequestBody{Required: true, Content: openapi3.Content{ct: &openapi3.MediaType{Schema: &openapi3.SchemaRef{Value: obj}}}}
+	op := &openapi3.Operation{RequestBody: &openapi3.RequestBodyRef{Value: rb}}
+	skip := verifNondetBool("skipDefaults")
+	req := &http.Request{Method: "POST", Header: http.Header{"Content-Type": []string{header}}, URL: &url.URL{Path: "/"}, ContentLength: int64(len(body))}
+	req.Body = io.NopCloser(strings.NewReader(body))
+	input := &RequestValidationInput{Request: req, Route: &routers.Route{Spec: &openapi3.T{}, PathItem: &openapi3.PathItem{Post: op}, Operation: op, Method: "POST"},
+		Options: &Options{SkipSettingDefaults: skip}, QueryParams: url.Values{}, PathParams: map[string]string{}}
+	// known finding: form bodies have no body encoder, so a default cannot be written back
+	verifKnown("C13-default-rewrite-needs-json-encoder", cti == 3 && !hasD && !skip)
+	err := ValidateRequest(context.Background(), input)
+	verifAssert(err == nil, "C13 body defaults: a valid request stays valid whatever its (declared) content type")
+	if err != nil {
+		return
+	}
+	var rest []byte
+	if req.Body != nil {
+		rest, _ = io.ReadAll(req.Body)
+	}
+	if skip || hasD {
+		verifAssert(string(rest) == body, "C13 body defaults: with nothing to default the forwarded body is byte-for-byte the one received")
+	} else if cti != 3 {
+		var got map[string]any
+		verifAssert(json.Unmarshal(rest, &got) == nil && len(got) == 2 && got["a"] == 1.0 && got["d"] == dflt, "C13 body defaults: the forwarded body is the received value plus exactly the default")
+	}
+	verifAssert(req.ContentLength == int64(len(rest)), "C13 body defaults: ContentLength describes the forwarded body")
+	// the forwarded request validates again
+	req.Body = io.NopCloser(bytes.NewReader(rest))
+	verifAssert(ValidateRequest(context.Background(), input) == nil, "C13 body defaults: the forwarded request validates again")
+	verifReach("end")
 }
